@@ -31,13 +31,28 @@ fn shape_divisor(mat: &[u64], dl: usize, lz: u32, force_top: bool) -> Vec<u64> {
 fn nd_pair(dmin: usize, dmax: usize, nmax: usize) -> BoxedStrategy<(Vec<u64>, Vec<u64>, u64)> {
     (
         (limbs(MAXLEN), limbs(MAXLEN), limbs(MAXLEN), limbs(MAXLEN)),
-        (dmin..=dmax, 0u32..64, any::<bool>(), 0..=nmax, 0u8..4, 0u8..5, 0u8..4),
+        (dmin..=dmax, 0u32..64, any::<bool>(), 0..=nmax, 0u8..6, 0u8..5, 0u8..4, 0u8..6),
     )
-        .prop_map(move |((dm, nm, qm, rm), (dl, lz, force_top, nl, class, rk, mode))| {
-            let dv = shape_divisor(&dm, dl, lz, force_top);
+        .prop_map(move |((dm, nm, qm, rm), (dl, lz, force_top, nl, class, rk, mode, tie))| {
+            let mut dv = shape_divisor(&dm, dl, lz, force_top);
+            // one divisor in six (two limbs and more): the normalised leading 128 bits sit on
+            // the tie of the 3-by-2 reciprocal's last correction step (vcore::recip), or one
+            // beside it
+            if tie == 0 && dl >= 2 {
+                let delta = [0i64, 0, 0, 1, -1][(rk % 5) as usize];
+                if let Some(t) = vcore::recip::tie_divisor(dm[dl - 1], mode as usize, delta, dl, lz, &dm) {
+                    dv = t;
+                }
+            }
             let db = big(&dv);
             let num: Vec<u64> = match class {
                 0 => nm[..nl].to_vec(),
+                4 | 5 => {
+                    // power of two whose leading bit becomes the top bit of a limb after the
+                    // normalising shift (the extreme 3-by-2 window 2^63:0:0)
+                    let lzd = dv[dl - 1].leading_zeros();
+                    vcore::recip::pow2_numerator(nl.max(dl + 1).min(nmax.max(dl)), lzd, qm[0] as usize, rk, &nm)
+                }
                 1 => {
                     // n = q*d + r, q of ql limbs
                     let ql = nl.saturating_sub(dl);
@@ -356,8 +371,14 @@ fn body_2x1<const B: usize, const L: usize>(c: &Case, rec: &mut Rec) -> R {
 }
 
 fn norm_u128() -> BoxedStrategy<u128> {
-    (norm_limb(), limb(), 0u8..6)
+    (norm_limb(), limb(), 0u8..8)
         .prop_map(|(d1, d0, k)| {
+            if k >= 6 {
+                // a tie of reciprocal_2's last correction step
+                if let Some((t1, t0)) = vcore::recip::find_tie(d1, 24, d0 as usize) {
+                    return (t1 as u128) << 64 | t0 as u128;
+                }
+            }
             let d0 = match k {
                 0 => 0,
                 1 => 1,
@@ -371,7 +392,7 @@ fn norm_u128() -> BoxedStrategy<u128> {
 }
 
 fn strat_3x2(_: usize) -> BoxedStrategy<Case> {
-    (norm_u128(), limb(), limb(), limb(), 0u8..5)
+    (norm_u128(), limb(), limb(), limb(), 0u8..7)
         .prop_map(|(dv, a, b, u0, k)| {
             let raw = (a as u128) << 64 | b as u128;
             // u21 < d
@@ -380,6 +401,9 @@ fn strat_3x2(_: usize) -> BoxedStrategy<Case> {
                 1 => dv - 1,
                 2 => dv & !(u64::MAX as u128), // same high limb, zero low limb (< d unless d0 == 0)
                 3 => (dv >> 64 << 64) | (b as u128),
+                // the window 2^63:0 (with u0 from the alphabet: 2^191 + small)
+                5 => 1u128 << 127,
+                6 => (1u128 << 127) | (b as u128),
                 _ => raw % dv,
             };
             let u21 = if u21 >= dv { dv - 1 } else { u21 };
@@ -408,8 +432,17 @@ fn body_3x2<const B: usize, const L: usize>(c: &Case, rec: &mut Rec) -> R {
 }
 
 fn strat_recip(_: usize) -> BoxedStrategy<Case> {
-    (norm_limb(), norm_u128())
-        .prop_map(|(a, b)| Case::new().n(a).n((b >> 64) as u64).n(b as u64))
+    (norm_limb(), norm_u128(), 0u8..10, 0usize..4)
+        .prop_map(|(a, b, k, pick)| {
+            // half of the cases: d2 = a tie of the last correction step (or a neighbour)
+            if k < 5 {
+                if let Some((t1, t0)) = vcore::recip::find_tie((b >> 64) as u64, 24, pick) {
+                    let t0 = t0.wrapping_add([0u64, 0, 0, 1, u64::MAX][k as usize]);
+                    return Case::new().n(a).n(t1).n(t0).n(1);
+                }
+            }
+            Case::new().n(a).n((b >> 64) as u64).n(b as u64).n(0)
+        })
         .boxed()
 }
 
@@ -417,6 +450,14 @@ fn body_recip<const B: usize, const L: usize>(c: &Case, rec: &mut Rec) -> R {
     let dv = c.n[0];
     let d2 = (c.n[1] as u128) << 64 | c.n[2] as u128;
     rec.nontrivial(&(dv, d2));
+    if c.n.get(3) == Some(&1) {
+        let (p, t0, carry, _) = vcore::recip::model(c.n[1], c.n[2]);
+        let tie = carry && p == c.n[1];
+        rec.class_if(tie, "recip2:tie_p==d1");
+        rec.class_if(tie && t0 > c.n[2], "recip2:tie_t0>d0");
+        rec.class_if(tie && t0 < c.n[1], "recip2:tie_t0<d1");
+        rec.class_if(tie && t0 >= c.n[1] && t0 <= c.n[2], "recip2:tie_d1<=t0<=d0");
+    }
     rec.sample(|| json!({"kernel": "reciprocal", "d": format!("{dv:#x}"), "d2": format!("{d2:#x}")}));
     let e = recip_ref(dv);
     let v = rec.no_panic("reciprocal", catch(|| d::reciprocal(dv)))?;
@@ -468,7 +509,7 @@ fn main() {
     }
     let spec = PropSpec {
         id: "C14",
-        rule_text: "slice-level generators: numerator/divisor lengths 0..=12 independently with zero padding at the high end, divisors of every effective length with 0..63 leading zero bits, numerators from 4 classes (independent boundary-alphabet limbs; q*d+r with extreme q,d,r; copying the divisor's leading limbs with perturbed lower limbs, equal and slightly smaller top window); each specialised kernel only on its documented domain; reciprocals on all 256 table rows (start, start+1, end, end-1, 3 scattered) x 6 low limbs, enumerated, plus generated. Oracle: num-bigint / u128 quotient and remainder; floor((2^128-1)/d)-2^64 and floor((2^192-1)/d)-2^64. Non-trivial: divisor >= 2 limbs after trimming and non-zero quotient (div), >= 2 numerator limbs (n-by-1), non-zero quotient (n-by-2, n-by-m), every case for the fixed-size kernels and reciprocals (all inputs are normalised by construction); distinct by inputs. div_3x2_ref is excluded: its own doc comment says it is off by one.",
+        rule_text: "slice-level generators: numerator/divisor lengths 0..=12 independently with zero padding at the high end, divisors of every effective length with 0..63 leading zero bits, numerators from 5 classes (independent boundary-alphabet limbs; q*d+r with extreme q,d,r; copying the divisor's leading limbs with perturbed lower limbs, equal and slightly smaller top window; powers of two aligned to a limb top after the normalising shift, -1, +1, with low noise); one divisor in six (>= 2 limbs) has normalised leading 128 bits solved onto the tie of reciprocal_2's last correction step (p == d1 after the carry; vcore::recip bisection) or one beside it; each specialised kernel only on its documented domain; reciprocals on all 256 table rows (start, start+1, end, end-1, 3 scattered) x 6 low limbs, enumerated, plus generated, half of the generated reciprocal_2 arguments solved onto the last correction step's tie (classes recip2:tie_*). Oracle: num-bigint / u128 quotient and remainder; floor((2^128-1)/d)-2^64 and floor((2^192-1)/d)-2^64. Non-trivial: divisor >= 2 limbs after trimming and non-zero quotient (div), >= 2 numerator limbs (n-by-1), non-zero quotient (n-by-2, n-by-m), every case for the fixed-size kernels and reciprocals (all inputs are normalised by construction); distinct by inputs. div_3x2_ref is excluded: its own doc comment says it is off by one.",
         assumptions: vec![
             "num-bigint and u128 division are correct (oracle)",
             "div_nxm_normalized is exercised only on the shape len(numerator)=len(divisor)+len(quotient), len(quotient)>=1, the shape used by the repository's own tests (DESIGN 4 C14)",
